@@ -520,7 +520,9 @@ class GenTr(FxTr):
         return self.block(list(kont), self.start_env(kpt), lambda env, ret: self.end_path(env, "NxExit"))
 
     def has_handler(self, kpt):
-        return kpt != 0 and any(isinstance(x, _EndTry) for x in self.konts[kpt])
+        """an interrupt is thrown into the generator only where it is suspended: at a yield inside the try"""
+        return (kpt != 0 and _yield_of(self.point_node[kpt]) is not None
+                and any(isinstance(x, _EndTry) for x in self.konts[kpt]))
 
 
 def _canonical_object_names(f, spec):
@@ -597,7 +599,8 @@ def translate_gen(spec, state, record, prefix, effect_type):
             where = "entry (the kernel processes the Initialize event)"
         else:
             nd = tr.point_node[kpt]
-            where = f"resumed after line {nd.lineno}: `{lines[nd.lineno - 1].strip()[:90]}`"
+            src = lines[nd.lineno - 1].strip()[:90].replace("(*", "( *").replace("*)", "* )")    # no Coq comment brackets
+            where = f"resumed after line {nd.lineno}: `{src}`"
             y = _yield_of(nd)
             if y is not None and y[0] is not None:
                 objs = sorted(set(objs) | {y[0]})
@@ -631,7 +634,7 @@ def gen_run_module(title, spec, state, record, prefix, effect_type, fx_cons, req
         out.append(f"Record {record} := {{ " + "; ".join(f"{prefix}{a.lstrip('_')} : {COQ_TY[ty]}" for a, ty in state) + " }.")
 
     def ind(name, cons):
-        return f"Inductive {name} :=" + "".join(f"\n| {c} {a}".rstrip() for c, a in cons) + "."
+        return f"Inductive {name} :=" + ("".join(f"\n| {c} {a}".rstrip() for c, a in cons) if cons else " ") + "."
     out.append(ind(effect_type, fx_cons))
     out.append(ind(f"{types}_req", req_cons))
     if call_cons:
